@@ -305,6 +305,39 @@ def probe_full(kind, n):
     return kind in PROBE_SOLVED and n in (2, 3)
 
 
+def probe_raw(M):
+    """the arrays the public callables of a model hand out (kept by the caller), with copies taken at that moment"""
+    from optyx.core.compiler import compile_gradient
+    from optyx.core.autodiff import compile_jacobian, compile_hessian
+    from optyx.analysis import LinearProgramExtractor, is_linear
+
+    obj, vs = M["obj"], M["vars"]
+    x = np.array([0.75 + 0.5 * i for i in range(len(vs))])
+    kept = []
+    with warnings.catch_warnings(), np.errstate(all="ignore"):
+        warnings.simplefilter("ignore")
+        for f in (compile_jacobian([obj], vs), compile_gradient(obj, vs), compile_hessian(obj, vs)):
+            r = f(x)
+            if isinstance(r, np.ndarray):
+                kept.append((f.__name__, r, r.copy()))
+        if is_linear(obj):
+            d = LinearProgramExtractor().extract(M["prob"])
+            kept.append(("LPData.c", d.c, d.c.copy()))
+        bl = M["prob"].get_bounds(); vl = M["prob"].variables
+        kept.append(("get_bounds", bl, list(bl)))
+        kept.append(("variables", vl, list(vl)))
+    return kept
+
+
+def changed_results(kept):
+    out = []
+    for name, obj, cp in kept:
+        same_now = np.array_equal(obj, cp, equal_nan=True) if isinstance(obj, np.ndarray) else list(obj) == cp
+        if not same_now:
+            out.append(name)
+    return out
+
+
 def probe_pairs(rep, rng, ref, thorough):
     """every target probe after prefixes of other probes: same and different dimension, same and different names; the
     prefix is consumed by a hostile consumer (returned arrays overwritten in place); nothing is cleared in between"""
@@ -314,6 +347,8 @@ def probe_pairs(rep, rng, ref, thorough):
         same_n = [(k, tn) for k in PROBE_KINDS if k != tk]
         other_n = [(k, n) for n in PROBE_DIMS if n != tn for k in ("cross", "mixed", "pow2", "lin")]
         prefixes = same_n + other_n if thorough else rng.sample(same_n, 5) + rng.sample(other_n, 2)
+        holder = probe_build(tk, tn, "s")
+        kept = probe_raw(holder)          # results of earlier calls, held by the user while other models come and go
         for i, (pk, pn) in enumerate(prefixes):
             N = probe_build(pk, pn, "s" if i % 2 == 0 else "t")
             SCRIBBLE[0] = True
@@ -326,6 +361,12 @@ def probe_pairs(rep, rng, ref, thorough):
             rep.nontrivial.add(("pair", pk, pn, tk, tn))
             key = f"pair:n{pn}->n{tn}"
             rep.histogram[key] = rep.histogram.get(key, 0) + 1
+            ch = changed_results(kept)
+            if ch:
+                rep.oracle_failures.append({
+                    "what": "an array / list returned earlier by a public call of one model changed while other models were used",
+                    "pair": [[pk, pn], [tk, tn]], "where": "/" + ch[0], "got": str(ch), "fresh": "unchanged"})
+                break
             d = same(got, want)
             if d:
                 k0 = d.split("/")[1].split("[")[0]
@@ -333,6 +374,161 @@ def probe_pairs(rep, rng, ref, thorough):
                     "what": "artefact of a model differs from a fresh process after an unrelated model was compiled / consumed",
                     "pair": [[pk, pn], [tk, tn]], "where": d, "got": str(got.get(k0))[:300], "fresh": str(want.get(k0))[:300]})
                 break
+
+
+# ----------------------------------------------------------------------------- small nodes over bare same-named leaves
+
+UNARY_OPS = ["neg", "abs", "sin", "cos", "tan", "exp", "log", "log2", "log10", "sqrt", "tanh", "sinh", "cosh", "asin", "acos",
+             "atan", "asinh", "acosh", "atanh"]
+BIN_OPS = ["+", "-", "*", "/", "**"]
+LEAF_KINDS = ["P", "Q", "X", "Y", "C"]          # Parameter p, Parameter q, Variable x, Variable y, Constant
+
+
+def small_specs():
+    """every node kind over every kind of bare leaf: a bare leaf, a unary function of a leaf, a binary operation of two
+    leaves, the vector reductions over vectors of bare leaves"""
+    specs = [("leaf", k) for k in ("P", "X", "C")]
+    specs += [("un", op, k) for op in UNARY_OPS for k in ("P", "X", "C")]
+    pairs = [("P", "Q"), ("P", "X"), ("X", "P"), ("P", "C"), ("C", "P"), ("X", "C"), ("P", "P"), ("X", "Y")]
+    specs += [("bin", op, a, b) for op in BIN_OPS for a, b in pairs]
+    specs += [("vec", kind, a, b) for kind in ("sum", "l2", "l1", "dot", "lincomb") for a, b in (("P", "Q"), ("P", "X"), ("P", "C"))]
+    return specs
+
+
+def small_build(spec, role: str):
+    """the model of `role` ("N" or "M"): same names (p, q, x, y), own objects, own values / bounds"""
+    from optyx import Variable, Parameter, Problem
+    from optyx.core.expressions import Constant, BinaryOp, UnaryOp
+    from optyx.core import vectors as V
+
+    shift = 1.0 if (spec[0] == "un" and spec[1] == "acosh") else 0.0
+    pv, qv, cv = ((0.5, 0.25, 0.375) if role == "N" else (0.75, 0.625, 0.875))
+    lo = 0.0 if role == "N" else 2.0
+    L = {"P": Parameter("p", pv + shift), "Q": Parameter("q", qv + shift), "X": Variable("x", lb=lo, ub=lo + 1.0),
+         "Y": Variable("y", lb=lo, ub=lo + 1.0), "C": Constant(cv + shift)}
+
+    def node():
+        if spec[0] == "leaf":
+            return L[spec[1]]
+        if spec[0] == "un":
+            return UnaryOp(L[spec[2]], spec[1])
+        if spec[0] == "bin":
+            return BinaryOp(L[spec[2]], L[spec[3]], spec[1])
+        ve = V.VectorExpression([L[spec[2]], L[spec[3]]])
+        return {"sum": lambda: ve.sum(), "l2": lambda: V.L2Norm(ve), "l1": lambda: V.L1Norm(ve), "dot": lambda: V.DotProduct(ve, ve),
+                "lincomb": lambda: V.LinearCombination(np.array([2.0, -1.0]), ve)}[spec[1]]()
+
+    nd = node()
+    x, y = L["X"], L["Y"]
+    return {"spec": spec, "role": role, "node": nd, "twin": node() if spec[0] != "leaf" else None, "x": x, "y": y, "L": L,
+            "vars": [x, y]}
+
+
+def small_compile(M):
+    """all artefacts in which the small node is the complete compiled expression / derivative entry / Hessian entry"""
+    from optyx import Problem
+    from optyx.core.compiler import compile_expression, compile_gradient, compile_to_dict_function
+    from optyx.core.autodiff import compile_jacobian, compile_hessian, gradient
+
+    nd, x, y, vs = M["node"], M["x"], M["y"], M["vars"]
+    e1 = x * x + nd * y                 # d/dy = node
+    e2 = nd * x * y + x * x             # d2/dxdy = node
+    e3 = x * nd - 1.0                   # constraint whose x-coefficient is the node
+    with warnings.catch_warnings(), np.errstate(all="ignore"):
+        warnings.simplefilter("ignore")
+        art = {"whole": compile_expression(nd, vs), "dict": compile_to_dict_function(nd, vs),
+               "jac1": compile_jacobian([e1], vs), "grad1": compile_gradient(e1, vs),
+               "dy": compile_expression(gradient(e1, y), vs), "hess2": compile_hessian(e2, vs),
+               "jac3": compile_jacobian([e3, e1], vs), "jac_node": compile_jacobian([nd], vs), "hess_node": compile_hessian(nd, vs)}
+    prob = Problem()
+    prob.maximize(nd * x - x * x - y * y)        # the negated objective has -node as the x-coefficient
+    prob.subject_to(e3 <= 5.0)
+    art["prob"] = prob
+    art["exprs"] = (e1, e2, e3)
+    return art
+
+
+def small_call(M, art) -> dict:
+    from optyx.analysis import compute_degree
+
+    nd, vs = M["node"], M["vars"]
+    lo = 0.0 if M["role"] == "N" else 2.0
+    pt = np.array([lo + 0.25, lo + 0.75])
+    env = {"x": float(pt[0]), "y": float(pt[1])}
+    out = {}
+    with warnings.catch_warnings(), np.errstate(all="ignore"):
+        warnings.simplefilter("ignore")
+        out["eval"] = _f(np.asarray(nd.evaluate(env)))
+        out["whole"] = _f(np.asarray(art["whole"](pt)))
+        out["dict"] = _f(np.asarray(art["dict"](env)))
+        for k in ("jac1", "grad1", "hess2", "jac3", "jac_node", "hess_node"):
+            out[k] = [art[k].__name__] + _arr(art[k](pt))
+        out["dy"] = _f(np.asarray(art["dy"](pt)))
+        out["degree"] = [compute_degree(e) for e in art["exprs"]] + [compute_degree(nd)]
+        try:
+            s = art["prob"].solve(method="SLSQP")
+            out["solve"] = [s.status.name, {k: round(float(v), 6) for k, v in sorted((s.values or {}).items())},
+                            None if s.objective_value is None else round(float(s.objective_value), 6)]
+        except Exception as ex:  # noqa: BLE001
+            out["solve"] = ["raise:" + type(ex).__name__]
+        # expressions as keys of hash / equality based containers: two distinct objects of equal structure are two keys
+        if M["twin"] is not None:
+            tw = M["twin"]
+            out["containers"] = [len({nd, tw}), tw in {nd: 1}, (nd == tw) is True, len({nd: 1, tw: 2}), [nd].count(tw)]
+    return out
+
+
+def small_observe(M) -> dict:
+    return small_call(M, small_compile(M))
+
+
+def small_family(rep, rng, ref, thorough, only=None):
+    """two independently built models with the same names whose small nodes have the same structure: compiled,
+    differentiated, evaluated and solved in every interleaving; each must see its own leaves"""
+    specs = small_specs()
+    orders = ["N-then-M", "compile-both-call-both", "M-first", "set-in-between"]
+    for i, spec in enumerate(specs):
+        if only is not None and i != only:
+            continue
+        want = {r: ref[json.dumps(["small", i, r])] for r in ("N", "M")}
+        for order in (orders if thorough else [orders[i % 4], orders[(i + 1) % 4]]):
+            N, M = small_build(spec, "N"), small_build(spec, "M")
+            if order == "N-then-M":
+                got = {"N": small_observe(N), "M": small_observe(M)}
+            elif order == "compile-both-call-both":
+                aN, aM = small_compile(N), small_compile(M)
+                gM = small_call(M, aM)
+                got = {"N": small_call(N, aN), "M": gM}
+            elif order == "M-first":
+                aM = small_compile(M)
+                aN = small_compile(N)
+                got = {"N": small_call(N, aN), "M": small_call(M, aM)}
+            else:
+                aN = small_compile(N)
+                small_call(N, aN)
+                N["L"]["P"].set(0.125 + (1.0 if spec[:2] == ("un", "acosh") else 0.0))    # the other model's parameter moves
+                aM = small_compile(M)
+                got = {"M": small_call(M, aM)}
+            rep.evaluations += 1
+            rep.nontrivial.add(("small", i, order))
+            key = "small:" + spec[0]
+            rep.histogram[key] = rep.histogram.get(key, 0) + 1
+            bad = None
+            for r, g in got.items():
+                d = same(g, want[r])
+                if d:
+                    k0 = d.split("/")[1].split("[")[0]
+                    bad = {"what": "a model whose node over bare leaves has the same structure and names as another model's sees "
+                                   "the other model's leaf",
+                           "small": [i, list(spec)], "order": order, "role": r, "where": d, "got": str(g.get(k0))[:200],
+                           "fresh": str(want[r].get(k0))[:200]}
+                    break
+            cont = got["M"].get("containers")
+            if bad is None and cont is not None and cont != [2, False, False, 2, 0] and spec[0] != "leaf":
+                bad = {"what": "two distinct expression objects of equal structure collide as keys of a set / dict / list search",
+                       "small": [i, list(spec)], "order": order, "got": cont, "fresh": [2, False, False, 2, 0]}
+            if bad:
+                rep.oracle_failures.append(bad)
 
 
 # ----------------------------------------------------------------------------- faulting prefixes and interpreter state
@@ -662,7 +858,9 @@ def _ref_main():
     out = {}
     for s in seeds:
         clear_lru()
-        if isinstance(s, list) and s[0] == "probe":
+        if isinstance(s, list) and s[0] == "small":
+            out[json.dumps(s)] = small_observe(small_build(small_specs()[s[1]], s[2]))
+        elif isinstance(s, list) and s[0] == "probe":
             out[json.dumps(s)] = probe_observe(probe_build(s[1], s[2], "s"), full=probe_full(s[1], s[2]))
         elif isinstance(s, list):      # ["life", kind, depth]
             out[json.dumps(s)] = life_observe(life_build(s[1], s[2], 0), full=True)
@@ -675,6 +873,8 @@ def same(a, b, path=""):
     """None if equal (floats to 1e-9 relative), else the path of the first difference"""
     if isinstance(a, float) or isinstance(b, float):
         if isinstance(a, (int, float)) and isinstance(b, (int, float)):
+            if math.isnan(float(a)) and math.isnan(float(b)):
+                return None
             return None if math.isclose(float(a), float(b), rel_tol=1e-9, abs_tol=1e-11) else path
         return None if a == b else path
     if isinstance(a, dict) and isinstance(b, dict):
@@ -832,6 +1032,11 @@ def run(ctx) -> core.Report:
         probe_ref = reference(items)
         clear_lru()
         probe_pairs(rep, rng, probe_ref, thorough)
+        # small nodes over bare same-named leaves, two models interleaved
+        n_small = len(small_specs())
+        small_ref = reference([["small", i, r] for i in range(n_small) for r in ("N", "M")])
+        clear_lru()
+        small_family(rep, rng, small_ref, thorough)
         # prefixes that end in exceptions: interpreter-wide state untouched, later observations unaffected
         before = interpreter_state()
         outcomes = faulting_prefix()
@@ -894,6 +1099,17 @@ def search(ctx, rep):
 
 def replay(payload) -> bool:
     f = payload["failure"]
+    if "small" in f:
+        i = int(f["small"][0])
+        ref = reference([["small", i, r] for r in ("N", "M")], own_process_each=True)
+        rep = core.Report()
+        clear_lru()
+        try:
+            small_family(rep, None, ref, True, only=i)
+        finally:
+            clear_lru()
+        print("failures:", rep.oracle_failures[:1])
+        return not rep.oracle_failures
     if "life" in f:
         kind, depth = f["life"]
         ref = reference([["life", kind, depth]], own_process_each=True)
